@@ -103,6 +103,11 @@ class PDLMatcher:
         if original_op.type_values and len(original_op.type_values) <= index:
             return False
 
+        # the operand has to be the result the pattern names, not just any result
+        # of a matching operation
+        if len(xdsl_op.results) <= index or xdsl_op.results[index] is not xdsl_operand:
+            return False
+
         self.matching_context[ssa_val] = xdsl_op.results[index]
 
         return True
